@@ -152,7 +152,8 @@ def write_evidence(pid, tier, mod, stages, wall, nviol, known_seen):
         "bounds": getattr(mod, "BOUNDS", {}).get(tier, ""),
         "known_findings_observed": sorted(known_seen),
     }
-    states = sum(s.agg.states for s in ran)
+    # explicit-state stages count their own states; other stages may count one state per distinct case at most
+    states = sum(s.agg.states if s.kind == "bfs" else min(s.agg.states, s.agg.distinct()) for s in ran)
     if level == "model_checking" or states:
         cov["states"] = states
         cov["transitions"] = sum(s.agg.transitions for s in ran)
